@@ -22,26 +22,41 @@ structure Port where
   script : List (List Nat × Bool) := []
   log : List LogEv := []
   sleeps : Nat := 0                    -- calls of ports.sleep() so far
+  budget : Option Nat := none          -- device fault: `_send` calls that still succeed (none: no fault)
   deriving DecidableEq, Repr, Inhabited
 
 /-- identities of the 32 reset messages (all_notes_off, reset_all_controllers per channel) -/
 def resetIds : List Nat := (List.range 32).map (· + 1000)
 
-/-- `_send` of the port kind -/
+/-- the device is gone: its `_send` raises OSError -/
+def Port.sendFails (p : Port) : Bool :=
+  match p.kind, p.budget with
+  | .dev, some 0 => true
+  | _, _ => false
+
+/-- a successful `_send` of the port kind -/
 def Port.rawSend (p : Port) (id : Nat) : Port :=
   match p.kind with
-  | .dev => { p with log := p.log ++ [.sent id] }
+  | .dev => { p with log := p.log ++ [.sent id], budget := p.budget.map (· - 1) }
   | .echo => { p with queue := p.queue ++ [id] }
+
+/-- `reset()` inside `close()`: the reset messages are sent one by one; the first OSError ends the
+    loop (`except OSError: pass`) -/
+def Port.resetSends : List Nat → Port → Port
+  | [], p => p
+  | i :: r, p => if p.sendFails then p else Port.resetSends r (p.rawSend i)
 
 /-- `close()` -/
 def Port.close (p : Port) : Port :=
   if p.closed then p else
-  let p1 := if p.autoreset then resetIds.foldl Port.rawSend p else p
+  let p1 := if p.autoreset then Port.resetSends resetIds p else p
   { p1 with log := p1.log ++ [.closed], closed := true }
 
 /-- `send(msg)` -/
 def Port.send (p : Port) (id : Nat) : Port × Except Err Unit :=
-  if p.closed then (p, .error .ValueError) else (p.rawSend id, .ok ())
+  if p.closed then (p, .error .ValueError)
+  else if p.sendFails then (p, .error .OSError)
+  else (p.rawSend id, .ok ())
 
 /-- the device's `_receive`: one step of the environment -/
 def Port.envStep (p : Port) : Port :=
@@ -176,9 +191,18 @@ def Multi.receive (m : Multi) (block : Bool) : Multi × ROut :=
     if m.closed then (m, if block then .raised .ValueError else .none)
     else Multi.recvLoop block m.fuel m
 
+/-- the loop of `MultiPort._send`: every open child in turn; an exception ends it -/
+def sendChildren (id : Nat) : List Port → List Port × Except Err Unit
+  | [] => ([], .ok ())
+  | c :: cs =>
+    if c.closed then let (cs', r) := sendChildren id cs; (c :: cs', r)
+    else match c.send id with
+      | (c', .ok _) => let (cs', r) := sendChildren id cs; (c' :: cs', r)
+      | (c', .error e) => (c' :: cs, .error e)
+
 /-- `MultiPort.send`: forwarded to every open child -/
 def Multi.send (m : Multi) (id : Nat) : Multi × Except Err Unit :=
   if m.closed then (m, .error .ValueError)
-  else ({ m with children := m.children.map (fun c => if c.closed then c else (c.send id).1) }, .ok ())
+  else let (cs, r) := sendChildren id m.children; ({ m with children := cs }, r)
 
 end Mido
